@@ -240,9 +240,35 @@ def _dict_construction(call):
     return None
 
 
+def interning_functions(m):
+    """ObtainQuantity and every other function outside the unit database that stores into the intern table
+    (a phase of ObtainQuantity that other code calls directly): the interning discipline is checked for each."""
+    out = [m.func("ObtainQuantity")]
+    for q, fn in sorted(m.funcs.items()):
+        if fn is out[0] or fn.cls == "UnitDatabase" or fn.parent is not None or "quantities_cache" not in ast.unparse(fn.node):
+            continue
+        res = Resolver(m, fn)
+        for n in own_nodes(fn.node):
+            tgt = None
+            if isinstance(n, ast.Subscript) and isinstance(n.ctx, ast.Store):
+                tgt = n.value
+            elif isinstance(n, ast.Call) and isinstance(n.func, ast.Attribute) and n.func.attr in ("setdefault", "update"):
+                tgt = n.func.value
+            if tgt is not None and any(x[0] == "attr" and x[2] == "quantities_cache" for x in alternatives(res.term(tgt))):
+                out.append(fn)
+                break
+    return out
+
+
 def r5_interning(rep, ctx):
     m = ctx.model
-    fn = m.func("ObtainQuantity")
+    for fn in interning_functions(m):
+        _interning(rep, m, fn)
+
+
+def _interning(rep, m, fn):
+    main = fn.name == "ObtainQuantity"
+    NAME = fn.name
     res = Resolver(m, fn)
     cfg = CFG(fn.node)
     # the cache alias
@@ -251,13 +277,14 @@ def r5_interning(rep, ctx):
         return any(x[0] == "attr" and x[2] == "quantities_cache" for x in alternatives(t))
 
     ctor_calls = [n for n in own_nodes(fn.node) if isinstance(n, ast.Call) and isinstance(n.func, ast.Name) and n.func.id == "Quantity"]
-    rep.floor("C07.R5", "Quantity constructions in ObtainQuantity", len(ctor_calls), 2)
+    if main:
+        rep.floor("C07.R5", "Quantity constructions in ObtainQuantity", len(ctor_calls), 2)
     stored_names = {}
     for c in ctor_calls:
         st = c
         while st is not None and not isinstance(st, ast.stmt):
             st = getattr(st, "_parent", None)
-        key = "ObtainQuantity:" + norm(ast.unparse(st))[:90]
+        key = NAME + ":" + norm(ast.unparse(st))[:90]
         ok = False
         keyexprs = []
         if isinstance(st, ast.Assign) and st.value is c:
@@ -321,15 +348,16 @@ def r5_interning(rep, ctx):
                     justified = any(isinstance(e, ast.Compare) and isinstance(e.ops[0], ast.Eq) and v and any(x[0] == "call" and x[1][0] == "attr" and x[1][2] == "GetDefaultCategory" for x in walk(res.term(e))) for e, v in facts)
                     ok = justified
                     why = "component(s) %s of the key are constants" % consts
-                rep.check(ok, "C07.R5", "ObtainQuantity:store-key:%s" % norm(ast.unparse(st))[:80], "the entry is stored under a key made of the request's own category, unit and caption",
+                rep.check(ok, "C07.R5", NAME + ":store-key:%s" % norm(ast.unparse(st))[:80], "the entry is stored under a key made of the request's own category, unit and caption",
                           "`%s`: %s, so the entry also answers requests that name no category although their default category may differ from this object's: Scalar(v, u) and Scalar(v, u, default category of u) stop being equal after such a store"
                           % (norm(ast.unparse(st))[:100], why), node=st, fn=fn)
-    rep.floor("C07.R5", "stores into the intern table", n_stores, 2)
+    if main:
+        rep.floor("C07.R5", "stores into the intern table", n_stores, 2)
     # returns: cache hit or a name assigned by such a statement in that arm
     for r in cfg.returns():
         st = cfg.ast[r]
         v = st.value
-        key = "ObtainQuantity:ret:%s@%s" % (norm(ast.unparse(st)), _arm(cfg, r))
+        key = NAME + ":ret:%s@%s" % (norm(ast.unparse(st)), _arm(cfg, r))
         def cache_hit_term(x):
             # cache[k]  or  cache.get(k) (a None result is excluded by a dominating `is not None` test)
             if x[0] == "sub" and any(y[0] == "attr" and y[2] == "quantities_cache" for y in alternatives(x[1])):
@@ -371,6 +399,8 @@ def r5_interning(rep, ctx):
             ok = all((x[0] == "call" and x[1] == ("name", "Quantity")) or cache_hit_term(x) for x in alternatives(t))
             rep.check(ok, "C07.R5", key, "returns the object that was just stored in the intern table",
                       "may return an object that was not stored in the intern table (%s)" % show(t, 160), node=st, fn=fn)
+        elif not main and isinstance(v, ast.Call) and isinstance(v.func, ast.Name) and v.func.id == "ObtainQuantity":
+            rep.ok("C07.R5", key, "returns what ObtainQuantity returns", node=st, fn=fn)
         elif isinstance(v, ast.Call) and isinstance(v.func, ast.Name) and v.func.id == fn.name:
             # the function delegates to itself with a simplified request: every part of the request must be handed on
             from ..facts import bind_args
@@ -414,7 +444,7 @@ def _key_complete(rep, fn, res, cfg, st, keyexpr, ctor):
         cparams |= params_in(res.term(a_))
     missing = sorted(cparams - kparams)
     # `category` may be absent from the key when a dominating assert says it is None
-    if 1 in missing:
+    if 1 in missing and fn.name == "ObtainQuantity":
         facts = cfg.facts_at(cfg.node_of(st))
         asserted_none = False
         for n in cfg.nodes("assert"):
@@ -427,7 +457,7 @@ def _key_complete(rep, fn, res, cfg, st, keyexpr, ctor):
         if asserted_none:
             missing.remove(1)
     names = [fn.params[i] for i in missing]
-    key = "ObtainQuantity:key:%s" % norm(ast.unparse(keyexpr))[:70] + "@" + norm(ast.unparse(st))[:40]
+    key = fn.name + ":key:%s" % norm(ast.unparse(keyexpr))[:70] + "@" + norm(ast.unparse(st))[:40]
     rep.check(not missing, "C07.R5", key, "the cache key mentions every input that determines the constructed Quantity (%s)" % sorted(fn.params[i] for i in kparams),
               "the cache key does not mention %s, which the constructed Quantity depends on: different requests share one cache entry" % names, node=st, fn=fn,
               facts={"key": show(kt, 200)})
@@ -590,19 +620,33 @@ def r8_pickle(rep, ctx):
         if t0 is not None and any(x[0] == "param" and x[1] == 0 for x in walk(t0)) and t0[0] == "call" and t0[1] == ("name", "OrderedDict") \
                 and capt is not None and any(x[0] == "call" and x[1][0] == "attr" and x[1][2] == "pop" for x in alternatives(capt)):
             feed = True
-    _pickle_components(rep, ob, tname)
+    interns = any(f is ob for f in interning_functions(m))
+    if not calls and interns:
+        # the reconstruction runs a phase of ObtainQuantity itself (the interning rules R5 are applied to it as well):
+        # every Quantity it constructs gets the remaining items and the popped caption
+        ctors = [n for n in own_nodes(ob.node) if isinstance(n, ast.Call) and isinstance(n.func, ast.Name) and n.func.id == "Quantity"]
+        feed = bool(ctors)
+        for c in ctors:
+            capt = ores.term(c.args[2]) if len(c.args) >= 3 else None
+            for k in c.keywords:
+                if k.arg == "unknown_unit_caption":
+                    capt = ores.term(k.value)
+            from_state = all(any(x[0] == "param" and x[1] == 0 for x in walk(ores.term(a_))) or ores.term(a_) == ("const", None) for a_ in c.args[:2]) and len(c.args) >= 2
+            if not (from_state and capt is not None and all(x[0] == "call" and x[1][0] == "attr" and x[1][2] == "pop" for x in alternatives(capt))):
+                feed = False
+    _pickle_components(rep, ob, tname, interns)
     rep.check(last and feed, "C07.R8", "%s:pops-one" % tname, "removes exactly the trailing element and rebuilds through ObtainQuantity(OrderedDict(items), None, caption)",
               "does not %s" % ("pop exactly one element from the end" if not last else "pass the remaining items and the popped caption to ObtainQuantity"), fn=ob)
 
 
-def _pickle_components(rep, ob, tname):
+def _pickle_components(rep, ob, tname, interns=False):
     """Every return of the reconstruction function rebuilds through ObtainQuantity, and no component of
     a pickled entry (category, unit, exponent) is dropped: a destructured name that is never read means
     the result is the same for two states that differ in it (non-dependence)."""
     for r in own_nodes(ob.node):
         if isinstance(r, ast.Return):
             v = r.value
-            ok = isinstance(v, ast.Call) and isinstance(v.func, ast.Name) and v.func.id == "ObtainQuantity"
+            ok = (isinstance(v, ast.Call) and isinstance(v.func, ast.Name) and v.func.id == "ObtainQuantity") or interns  # (R5 decides the returns of an interning function)
             rep.check(ok, "C07.R8", "%s:return:%s" % (tname, norm(ast.unparse(r))[:60]), "rebuilds through ObtainQuantity", "%s can return `%s`, not an interned quantity" % (tname, ast.unparse(v) if v else None), node=r, fn=ob)
     state = ob.params[0]
     for st in own_statements(ob.node):
